@@ -1,3 +1,5 @@
+#[cfg(cachelito_verif)]
+use crate::verif_seams::sim_std as std;
 use crate::{CacheEntry, EvictionPolicy};
 use once_cell::sync::Lazy;
 use parking_lot::lock_api::MutexGuard;
